@@ -320,6 +320,18 @@ func TypeSchema(r *rand.Rand, o TypeOpts) *model.Schema {
 			s.Dirs = append(s.Dirs, d)
 		}
 		g.dirs = s.Dirs
+		if r.Intn(3) == 0 {
+			// directives on the arguments of directive definitions: one marker used on two arguments of one definition, and
+			// reached along two branches (a diamond) - a use is no loop
+			lo := []string{"ARGUMENT_DEFINITION", "INPUT_FIELD_DEFINITION"}
+			leaf := &model.DirDef{Name: "argMarkZz", On: lo}
+			mid1 := &model.DirDef{Name: "argMidAZz", On: lo, Args: []*model.ArgDef{{Name: "m", Type: model.Named("Int"), Dirs: []model.DirUse{{Name: "argMarkZz"}}}}}
+			mid2 := &model.DirDef{Name: "argMidBZz", On: lo, Args: []*model.ArgDef{{Name: "m", Type: model.Named("String"), Dirs: []model.DirUse{{Name: "argMarkZz"}}}}}
+			top := &model.DirDef{Name: "argTopZz", On: []string{"OBJECT", "ENUM"}, Args: []*model.ArgDef{
+				{Name: "a", Type: model.Named("Int"), Dirs: []model.DirUse{{Name: "argMarkZz"}, {Name: "argMidAZz"}}},
+				{Name: "b", Type: model.Named("Int"), Dirs: []model.DirUse{{Name: "argMarkZz"}, {Name: "argMidBZz"}}}}}
+			s.Dirs = append(s.Dirs, top, mid1, mid2, leaf)
+		}
 	}
 	for _, t := range s.Types {
 		switch t.Kind {
